@@ -292,7 +292,14 @@ func (c *Caller) begin(ctx context.Context) []call {
 			defer cancel()
 			select {
 			case <-ctx.Done():
-				responder <- emptyCall
+				// withdraw the responder: left registered, the next call would be
+				// handed to a channel nobody reads
+				if c.responders.RemoveCb(id, func(_ string, v interface{}, exists bool) bool {
+					return exists && v == interface{}(responder)
+				}) {
+					return emptyCall
+				}
+				// already taken by a caller (or replaced by a newer poll), which answers it
 			case result := <-responder:
 				return result
 			}
